@@ -35,7 +35,7 @@ SYMS = ['SPY', 'AGG', 'XLB', 'XLC', 'A', 'AB', 'Z9', 'Q_1', 'GLD', 'TLT', 'EEM',
 _workers = {}
 
 
-def session_digest(case, fresh=False, data_source=None, path=None):
+def session_digest(case, fresh=False, data_source=None, path=None, shared=None, keep=None):
     """Runs the case's session and returns its digest (a dict of lists of strings)."""
     if fresh:
         clear_caches()
@@ -47,10 +47,12 @@ def session_digest(case, fresh=False, data_source=None, path=None):
             except Exception:                                     # noqa  (a prelude may be an invalid configuration)
                 pass
     if path is not None:
-        r = session.run_session(cfg, path, list(mk), data_source=data_source)
+        r = session.run_session(cfg, path, list(mk), data_source=data_source, shared=shared)
     else:
         with market.csv_dir(mk) as p:
-            r = session.run_session(cfg, p, list(mk), data_source=data_source)
+            r = session.run_session(cfg, p, list(mk), data_source=data_source, shared=shared)
+    if keep is not None:
+        keep['universe'], keep['alpha_inner'] = r.universe, r.alpha_inner
     d = session.digest(r)
     d['error'] = [repr(r.error[:2] + (str(r.error[2]),))] if r.error else []
     d['nfills'] = [str(len(r.fills))]
@@ -139,18 +141,69 @@ def preludes(cfg):
     return out
 
 
+def _two_source_handler(q, case):
+    """A handler over two overlapping sources (the first-listed one starts mid-session, at other prices) must give
+    the same results whether it is fresh or already served a session over the early period."""
+    cfg, mk = case['cfg'], case['market']
+    d0 = cal.date3(cfg['start'])
+    # the first-listed source only has bars from the session start on (at other prices); the second covers everything
+    late = {s: [r[:3] + [None if x is None else round(x * 1.5, 4) for x in r[3:]] for r in rows
+                if D.date(r[0], r[1], r[2]) >= d0] for s, rows in mk.items()}
+    if any(not rows for rows in late.values()):
+        return
+    # an earlier session over the days before the start, which only the second source can price
+    e0, e1 = d0 - D.timedelta(days=8), d0 - D.timedelta(days=1)
+    early = {'start': [e0.year, e0.month, e0.day, 0, 0, 0], 'end': [e1.year, e1.month, e1.day, 23, 59, 0],
+             'rebalance': 'daily', 'long_only': True, 'buffer': 0.05, 'leverage': 1.0, 'fee': None, 'cash': 1e6,
+             'burn_in': None, 'adjust': cfg.get('adjust', True),
+             'universe': {'kind': 'static', 'assets': ['EQ:' + s for s in mk]},
+             'alpha': {'kind': 'fixed', 'weights': {'EQ:' + s: 1.0 for s in mk}}}
+    with market.csv_dir(mk) as p_full, market.csv_dir(late) as p_late:
+        def handler():
+            srcs = [q.CSVDailyBarDataSource(p, q.Equity, adjust_prices=cfg.get('adjust', True), csv_symbols=list(mk))
+                    for p in (p_late, p_full)]
+            return q.BacktestDataHandler(None, data_sources=srcs)
+        clear_caches()
+        a = session.run_session(cfg, p_full, list(mk), data_handler=handler())
+        h = handler()
+        session.run_session(early, p_full, list(mk), data_handler=h)
+        b = session.run_session(cfg, p_full, list(mk), data_handler=h)
+    da, db = session.digest(a), session.digest(b)
+    d = session.first_diff(da, db)
+    if d or (a.error is None) != (b.error is None):
+        raise Violation('a two-source data handler that already served a session over the early period gives different '
+                        'results than a fresh one: %s' % (d or (a.error, b.error)))
+
+
 def run_case(case):
     q = load()
-    base = session_digest(case, fresh=True)
+    kept = {}
+    base = session_digest(case, fresh=True, keep=kept)
     again = session_digest(case)
     d = session.first_diff(base, again)
     if d or base['error'] != again['error']:
         raise Violation('the same session run twice in one process differs: %s' % (d or (base['error'], again['error'])))
+    # the same backtest again re-using the universe and alpha-model objects of the first run
+    shared_d = session_digest(case, shared=kept)
+    d = session.first_diff(base, shared_d)
+    if d or base['error'] != shared_d['error']:
+        raise Violation('re-running the session with the same universe / alpha-model objects gives different results: %s' % (
+            d or (base['error'], shared_d['error'])))
     # warm data source: the object first serves a different session, and another market was queried before
     cfg, mk = case['cfg'], case['market']
     other = {s: market.build_rows(99 + i, cal.date3(cfg['start']) - D.timedelta(days=9), 70) for i, s in enumerate(mk)}
     session_digest({'cfg': cfg, 'market': other})
     with market.csv_dir(mk) as path:
+        # another source object over the same files with the other adjustment setting answers first ...
+        other_cfg = dict(variant(cfg), adjust=not cfg.get('adjust', True))
+        ds_other = q.CSVDailyBarDataSource(path, q.Equity, adjust_prices=other_cfg['adjust'], csv_symbols=list(mk))
+        session_digest({'cfg': other_cfg, 'market': mk}, data_source=ds_other, path=path)
+        session_digest({'cfg': dict(cfg, adjust=other_cfg['adjust']), 'market': mk}, data_source=ds_other, path=path)
+        fresh_src = session_digest(case, path=path)
+        d = session.first_diff(base, fresh_src)
+        if d or base['error'] != fresh_src['error']:
+            raise Violation('a new data source gives different results after another source object over the same files '
+                            '(other adjust_prices setting) was used: %s' % (d or (base['error'], fresh_src['error'])))
         ds = q.CSVDailyBarDataSource(path, q.Equity, adjust_prices=cfg.get('adjust', True), csv_symbols=list(mk))
         session_digest({'cfg': variant(cfg), 'market': mk}, data_source=ds, path=path)
         warm = session_digest(case, data_source=ds, path=path)
@@ -158,6 +211,11 @@ def run_case(case):
     if d or base['error'] != warm['error']:
         raise Violation('a data source that already served another session gives different results: %s' % (
             d or (base['error'], warm['error'])))
+    if case.get('two_sources'):
+        _two_source_handler(q, case)
+        cls_two = ['two_source_handler_reused']
+    else:
+        cls_two = []
     pre = preludes(cfg)
     for k, hs in enumerate(hash_seeds()):
         other_d = ask(hs, dict(case, prelude=[pre[k % len(pre)]]))
@@ -168,7 +226,7 @@ def run_case(case):
                                 hs, ['schedule', 'money/sizing', 'alpha'][k % 3], os.environ.get('PYTHONHASHSEED', '?'),
                                 d or (base['error'], other_d['error'])))
     clear_caches()
-    cls = list(case.get('labels', [])) + [cfg['alpha']['kind'], cfg['universe']['kind'], cfg['rebalance']]
+    cls = list(case.get('labels', [])) + [cfg['alpha']['kind'], cfg['universe']['kind'], cfg['rebalance']] + cls_two
     nf = int(base['nfills'][0])
     if base['error']:
         cls.append('session_error')
@@ -197,7 +255,7 @@ def cases(draw):
         lab = lab + ['same_instant_entrants']
     if tie:
         lab = lab + ['tie_prone_market']
-    return {'cfg': cfg, 'market': mk, 'labels': lab}
+    return {'cfg': cfg, 'market': mk, 'labels': lab, 'two_sources': draw(st.sampled_from([False, False, True]))}
 
 
 PARTS = [
